@@ -69,7 +69,51 @@ def run(ctx, gen_status):
     for L in (93, 99, 105, 7, 12):
         for W in (2, 3):
             loader.append({'N': L, 'bs': 1, 'kind': 'single', 'seed': r.randint(0, 999), 'W': W, 'rank': r.randrange(W)})
-    res = vlib.run_impl('sampler_cases.py', {'uniform': uni, 'dist': dist, 'loader': loader}, timeout=3600)
+    # element structures: the empty batch must look like a non-empty one (tuple / bare tensor / dict / nested / numpy / strings)
+    struct = [{'N': r.choice([3, 4, 6]), 'bs': r.choice([1, 2]), 'kind': kind, 'seed': r.randint(0, 999)}
+              for kind in ['single', 'pair', 'scalar_label', 'triple', 'bare', 'dict', 'nested', 'numpy', 'strings'] for _ in range(ctx.n(1, 4))]
+    def rand_spec(depth):
+        k = r.choice(['T', 'T', 'M', 'Q', 'Q', 'S', 'L']) if depth < 3 else r.choice(['T', 'S', 'L'])
+        if k == 'T':
+            return ['T', [r.randint(1, 3) for _ in range(r.randint(0, 2))], r.randrange(6)]
+        if k == 'M':
+            return ['M', [['k%d' % i, rand_spec(depth + 1)] for i in range(r.randint(1, 3))]]
+        if k == 'Q':
+            tag = r.choice([0, 1, 2])
+            items = [rand_spec(depth + 1) for _ in range(r.randint(1, 3))]
+            if tag != 2 and all(it[0] == 'S' for it in items):      # a plain sequence of sequences is fine, a sequence of bare strings is the S case
+                items.append(['T', [], 2])
+            return ['Q', tag, items]
+        if k == 'S':
+            return ['S', r.choice([0, 1])]
+        return ['L', r.randrange(3)]
+    trees = [{'spec': rand_spec(0), 'n': r.randint(1, 3)} for _ in range(ctx.n(150, 1500))]
+    res = vlib.run_impl('sampler_cases.py', {'uniform': uni, 'dist': dist, 'loader': loader, 'struct': struct, 'tree': trees}, timeout=3600)
+    items = ['(%s, %s)' % (t['input'], t['output']) for t in res['tree']]
+    hdr = 'From Coq Require Import List String Arith.\nFrom OV Require Import Model.Batch Exec.RunBatch.\nImport ListNotations.\n'
+    body = 'Definition cases : list (btree * btree) := [\n ' + ';\n '.join(items) + '\n].\nEval vm_compute in (bad_batch 0 cases).\n'
+    with vlib.CoqLock():
+        ok, out = vlib.coq_make(['Exec/RunBatch.vo'])
+        rc, out = vlib.coq_eval('cases_c09t_%d' % (ctx.seed % 100000), hdr, body) if ok else (1, out)
+    lists = vlib.parse_eval_lists(out)
+    ctx.traces += len(items)
+    for t in trees:
+        ctx.case(t, nontrivial=t['spec'][0] in ('M', 'Q'), kind='empty-like/%s' % t['spec'][0])
+    if rc != 0 or len(lists) != 1:
+        ctx.obligation('correspondence:empty-like-batch(model=impl)', False, 'case file failed: ' + out[-500:])
+    else:
+        ctx.obligation('correspondence:empty-like-batch(model=impl)', not lists[0],
+                       '' if not lists[0] else 'empty_like_batch differs from Model/Batch.empty_like on %s' % [trees[i] for i in lists[0][:2]])
+        for i in lists[0][:1]:
+            ctx.fail('empty-like-model-vs-impl', 'empty_like_batch(%s) = %s differs from the model' % (res['tree'][i]['input'], res['tree'][i]['output']), trees[i])
+    for c, rr in zip(struct, res['struct']):
+        ctx.case(c, nontrivial=rr.get('empties', 0) > 0, kind='struct/%s' % c['kind'])
+        if rr.get('error'):
+            ctx.fail('empty-batch-structure', 'element structure %s: the loader raised: %s' % (c['kind'], rr['error']), c)
+        elif rr.get('bad'):
+            ctx.fail('empty-batch-structure', 'element structure %s: %s' % (c['kind'], rr['bad']), c)
+        elif rr['batches'] != 3 * rr['L']:
+            ctx.fail('batches-per-epoch', 'three epochs delivered %d batches, len(loader) = %d' % (rr['batches'], rr['L']), c)
     # ---- direct oracle on the implementation
     for c, rr in zip(uni, res['uniform']):
         ctx.case(c, nontrivial=any(rr['batches']) and any(len(b) < c['N'] for b in rr['batches']), kind='uniform')
